@@ -113,6 +113,9 @@ def isinstance_z3(eng, v, cls, node):
             if name in v.extra['isinstance']:
                 return v.extra['isinstance'][name]
         return z3.BoolVal(False)
+    if name in ('int', 'float', 'str', 'bytes', 'list', 'tuple', 'bool', 'dict', 'set',
+                'bytearray', 'memoryview', 'NoneType') and v.k not in ('any', 'dyn', 'opt'):
+        return z3.BoolVal(False)        # a contract-defined value kind is none of the builtin types
     raise Unsupported(node, 'isinstance(%r, %s)' % (v, name))
 
 
